@@ -310,3 +310,95 @@ fn count_nodes(n: &xml_dom::XmlNode, depth: usize) -> usize {
     }
     total
 }
+
+// attrs <text>: per element in document order, the attributes with normalized value and specified flag (property C11)
+//   `ok E(name)[A(qname,spec,value)...]...`  attributes sorted by qualified name; value `!` + class when value() fails;
+//   a trailing ` dom=...` reports whether the DOM view (Attr::value/specified, get_attribute) agrees with the info view
+pub fn attrs(args: &[String]) -> String {
+    use xml_dom::{Attr, Element as DomElement, NamedNodeMap, Node, NodeList};
+    let text = args.first().cloned().unwrap_or_default();
+    let (rest, tree) = match xml_parser::document(&text) {
+        Ok(v) => v,
+        Err(_) => return "err:syntax".to_string(),
+    };
+    if !rest.is_empty() {
+        return "err:rest".to_string();
+    }
+    let doc = match info::XmlDocument::new(&tree) {
+        Ok(d) => d,
+        Err(err) => return format!("err:{}", info_err_class(&err)),
+    };
+    fn walk(el: &info::XmlNode<info::XmlElement>, out: &mut String, depth: usize) {
+        if depth > 2000 {
+            return;
+        }
+        let elb = el.borrow();
+        let mut attrs: Vec<(String, String)> = vec![];
+        for a in elb.namespace_attributes().iter().chain(elb.attributes().iter()) {
+            let a = a.borrow();
+            let name = qn(a.prefix(), a.local_name());
+            let value = match a.normalized_value() {
+                Ok(v) => e(&v),
+                Err(err) => format!("!{}", info_err_class(&err)),
+            };
+            attrs.push((name.clone(), format!("A({},{},{})", name, a.specified() as u8, value)));
+        }
+        attrs.sort();
+        out.push_str(&format!(
+            "E({})[{}]",
+            qn(elb.prefix(), elb.local_name()),
+            attrs.into_iter().map(|a| a.1).collect::<Vec<_>>().join("")
+        ));
+        for k in elb.children().iter() {
+            if let info::XmlItem::Element(c) = &*k {
+                walk(c, out, depth + 1);
+            }
+        }
+    }
+    let mut out = String::new();
+    match doc.borrow().document_element() {
+        Ok(root) => walk(&root, &mut out, 0),
+        Err(_) => return "err:noroot".to_string(),
+    }
+    // DOM view of the same text: Attr::value / Attr::specified / get_attribute per element, same order
+    let mut dom_out = String::new();
+    let mut bad: Vec<String> = vec![];
+    if let Ok((_, dom)) = XmlDocument::from_raw(&text) {
+        fn dwalk(n: &xml_dom::XmlNode, out: &mut String, bad: &mut Vec<String>, depth: usize) {
+            if depth > 2000 {
+                return;
+            }
+            if let Some(el) = n.as_element() {
+                let mut attrs: Vec<(String, String)> = vec![];
+                if let Some(map) = n.attributes() {
+                    for i in 0..map.length() {
+                        if let Some(a) = map.item(i) {
+                            let value = match a.value() {
+                                Ok(v) => e(&v),
+                                Err(_) => "!".to_string(),
+                            };
+                            let nm = a.node_name();
+                            if let Ok(v) = a.value() {
+                                let g = el.get_attribute(&a.name());
+                                if g != v && map.length() == 1 {
+                                    bad.push(format!("get_attribute({})={}", e(&a.name()), e(&g)));
+                                }
+                            }
+                            attrs.push((e(&nm), format!("A({},{},{})", e(&nm), a.specified() as u8, value)));
+                        }
+                    }
+                }
+                attrs.sort();
+                out.push_str(&format!("E[{}]", attrs.into_iter().map(|a| a.1).collect::<Vec<_>>().join("")));
+            }
+            let kids = n.child_nodes();
+            for i in 0..kids.length() {
+                if let Some(k) = kids.item(i) {
+                    dwalk(&k, out, bad, depth + 1);
+                }
+            }
+        }
+        dwalk(&xml_dom::XmlNode::Document(dom), &mut dom_out, &mut bad, 0);
+    }
+    format!("ok {} dom={} bad={}", out, dom_out, bad.join(";"))
+}
